@@ -23,6 +23,7 @@ type MURR struct {
 	NextSeq  uint32
 	SeqTaint bool
 	Inc      int
+	Taint    bool // its PDR relation left what C12 quantifies over (duplicate ids, ambiguous update)
 }
 
 type MPDR struct {
@@ -155,6 +156,8 @@ type StepCtx struct {
 	Ambiguous bool
 	newUps   []*UpReq
 	expTermr map[uint32]string
+	refVia   map[uint32]string
+	skipURR  map[uint32]bool
 }
 
 func (s *Sim) projections() map[uint64]string {
@@ -538,11 +541,20 @@ func (m *Model) renameNode(old, nu string) {
 // applyRules advances the model of one session by the rule IEs of an accepted message.
 func (m *Model) applyRules(x *MSess, in *MsgIntent, ctx *StepCtx) {
 	ctx.expTermr = map[uint32]string{}
+	ctx.skipURR = map[uint32]bool{}
 	// references before
 	before := map[uint32][]string{}
+	beforeP := map[uint32]map[uint16]bool{}
 	for _, p := range x.PDR {
 		for u, via := range p.URRs {
 			before[u] = append(before[u], via)
+			if beforeP[u] == nil {
+				beforeP[u] = map[uint16]bool{}
+			}
+			beforeP[u][p.ID] = true
+			if p.Taint {
+				ctx.skipURR[u] = true // listed by a PDR whose list is not known for sure
+			}
 		}
 	}
 	removedURR := map[uint32]bool{}
@@ -557,7 +569,13 @@ func (m *Model) applyRules(x *MSess, in *MsgIntent, ctx *StepCtx) {
 			if old, ok := x.URR[r.ID]; ok {
 				// duplicate create: outside what C11/C12 quantify over
 				u.SeqTaint = true
+				u.Taint = true
 				u.NextSeq = old.NextSeq
+			}
+			for _, rr := range in.Remove {
+				if rr.Kind == "urr" && rr.ID == r.ID {
+					u.Taint, u.SeqTaint = true, true // created and removed by one message
+				}
 			}
 			x.URRInc[r.ID]++
 			u.Inc = x.URRInc[r.ID]
@@ -584,8 +602,27 @@ func (m *Model) applyRules(x *MSess, in *MsgIntent, ctx *StepCtx) {
 		x.Intent[ref] = r
 		if r.Kind == "pdr" {
 			p := &MPDR{ID: uint16(r.ID), URRs: map[uint32]string{}}
-			if _, dup := x.PDR[uint16(r.ID)]; dup {
+			taintAll := false
+			if old, dup := x.PDR[uint16(r.ID)]; dup {
 				p.Taint = true
+				taintAll = true
+				for u := range old.URRs {
+					if mu := x.URR[u]; mu != nil {
+						mu.Taint = true
+					}
+				}
+			}
+			for _, rr := range in.Remove {
+				if rr.Kind == "pdr" && rr.ID == r.ID {
+					taintAll = true // created and removed by one message
+				}
+			}
+			if taintAll {
+				for _, u := range r.URRIDs {
+					if mu := x.URR[u]; mu != nil {
+						mu.Taint = true
+					}
+				}
 			}
 			for _, u := range r.URRIDs {
 				via := "create_pdr"
@@ -620,6 +657,21 @@ func (m *Model) applyRules(x *MSess, in *MsgIntent, ctx *StepCtx) {
 			if p == nil {
 				continue
 			}
+			if len(r.URRIDs) == 0 {
+				// no URR ID in an Update PDR: "unchanged" or "emptied"? not decided by the
+				// property; the PDR's list is unknown until it is stated again
+				p.Taint = true
+				for u := range p.URRs {
+					ctx.skipURR[u] = true
+				}
+				continue
+			}
+			if p.Taint {
+				for _, u := range r.URRIDs {
+					ctx.skipURR[u] = true
+				}
+				p.Taint = false
+			}
 			nu := map[uint32]string{}
 			for _, u := range r.URRIDs {
 				if via, ok := p.URRs[u]; ok {
@@ -641,9 +693,35 @@ func (m *Model) applyRules(x *MSess, in *MsgIntent, ctx *StepCtx) {
 		}
 	}
 	after := map[uint32]bool{}
+	newRef := map[uint32]bool{}
+	kept := map[uint32]bool{}
+	ctx.refVia = map[uint32]string{}
 	for _, p := range x.PDR {
-		for u := range p.URRs {
+		for u, via := range p.URRs {
 			after[u] = true
+			if !beforeP[u][p.ID] && len(beforeP[u]) > 0 {
+				newRef[u] = true
+			}
+			if beforeP[u][p.ID] {
+				kept[u] = true
+			}
+			if old := ctx.refVia[u]; old == "" || via == "update_pdr" || (via == "create_pdr_before_urr" && old == "create_pdr") {
+				ctx.refVia[u] = via
+			}
+		}
+	}
+	for u, vias := range before {
+		for _, via := range vias {
+			if old := ctx.refVia[u]; old == "" || via == "update_pdr" || (via == "create_pdr_before_urr" && old == "create_pdr") {
+				ctx.refVia[u] = via
+			}
+		}
+	}
+	for u := range newRef {
+		if !kept[u] {
+			// every PDR that listed it stopped doing so and another one started in the
+			// same message: whether it was detached in between is the UPF's choice
+			ctx.skipURR[u] = true
 		}
 	}
 	for u, vias := range before {
